@@ -5,6 +5,12 @@ RULE = ("random histories (1-5 exchanges, length <= 40/80, notice rate 5/15/40 %
         "enabled or disabled, every DataKind (trade, l1, book snapshot / empty book update, candle, liquidation) and every "
         "AccountEventKind (trade, balance snapshot, full account snapshot empty / non-empty, order snapshot, cancel response) as the item, "
         "a warm-up that heals every link in shuffled order (60 %), single-kind cases (33 %) and two-exchange focus (20 %); "
+        "plus a separately seeded family (N/3 cases, ids cfg...) over the set-up shapes `init n <on|off> <kinds> <links> <via>`: 1-10 exchanges whose "
+        "instruments are of several kinds on one exchange (spot / perpetual / future / option, derivatives adding a settlement asset), the execution "
+        "link of every exchange healthy / closed / missing (tracked but not traded, `None` slot of the MultiExchangeTxMap) / refusing, trading enabled "
+        "with a strategy that emits one open request after every item (60 %), and the events fed through Engine::process, "
+        "barter::engine::process_with_audit or straight into EngineState::update_from_market / update_from_account (+ Engine::update_from_*_stream for "
+        "the notices); "
         "thorough additionally enumerates every history of length <= 5 over 2 exchanges "
         "(8 symbols, 37 449 histories). A case is distinct by the SHA-1 of its op lines and non-trivial when the implementation's "
         "observation (global, links, disconnect log) changes at least once")
@@ -13,6 +19,7 @@ ASSUMPTIONS = [
     "at most 10 exchanges in the harness (labels 0..9 = ten distinct ExchangeIds; `init n` with n > 10 is `bad-op` on both sides); the theorems are for every n",
     "every event names an exchange the engine was built with (the code panics otherwise; the harness and model both report `panic`)",
     "ExchangeId lookups and ExchangeIndex lookups address the same slot (distinct exchange ids, C11)",
+    "set-up shapes: every tracked exchange carries at least one instrument (IndexedInstruments derives its exchanges from the instruments; an exchange without instruments cannot be built through the public API) and starts Reconnecting (EngineStateBuilder offers no initial connectivity); the strategy is the harness's logging OnDisconnectStrategy (a custom on_disconnect that itself mutates connectivity is outside the text); clock = HistoricalClock",
 ]
 SOURCE_FILES = ["barter/src/engine/state/connectivity/mod.rs", "barter/src/engine/mod.rs", "barter/src/engine/state/mod.rs", "barter-instrument/src/exchange.rs"]
 CLAIM = True
